@@ -102,6 +102,12 @@ CHECKS = [
               "in one process (plus a few real-subprocess histories), thorough executes every run in a fresh interpreter. A stale .pyc shows up as the wrong "
               "checker, missing/extra instrumentation or an old source version.",
          note="4-module forest; CPython 3.12 pyc validation; in-process simulation clears Typechecker.lookup and sys.modules to mimic a new interpreter"),
+    dict(property_id="C17", level="exploration", design_ref="DESIGN.md §5 C17",
+         technique="Hypothesis-generated decorated functions over jax.Array called eagerly (zeros/random/NaN values, repeated) and under jit/vmap/grad/value_and_grad/eval_shape and depth-2 compositions; differential: traced verdict == eager verdict == reference solver",
+         text="For each generated signature/shape case and in_axes assignment, every transformation must raise TypeCheckError exactly when the eager call on "
+              "arrays of the traced shapes does, never a concretization/tracer-conversion error, trace the body once, and the eager verdict must not "
+              "depend on element values (incl. weakly typed scalars) or on earlier calls.",
+         note="CPU, float32, jax 0.6.2; batch sizes 1..3; the reference solver of C02 cross-checks the eager verdict"),
 ]
 _pending = "check not built yet in this round (will be claimed once its machinery is committed)"
 NOT_APPLICABLE = [dict(property_id=f"C{i:02d}", reason=_pending) for i in range(1, 21)
